@@ -117,7 +117,7 @@ def run_property(prop, tier, seed):
                 events_total += len(t["events"])
                 pal_counter["+".join(t["pal"]) if isinstance(t.get("pal"), list) else str(t.get("pal"))] += 1
                 for ev in t["events"]:
-                    calls_counter[ev["call"]] += 1
+                    calls_counter[ev.get("call", ev.get("act", "?"))] += 1
                     for tb in ev.get("pre", {}).values():
                         rp = tb.get("rep") if isinstance(tb, dict) else None
                         if rp:
